@@ -500,7 +500,7 @@ pub fn radii_for(depth: u8, quick: bool) -> Vec<f64> {
 
 pub fn centres(quick: bool) -> Vec<(f64, f64)> {
   let mut v: Vec<(f64, f64)> = vec![];
-  for (x, y) in plane_nodes(if quick { 1 } else { 2 }) {
+  for (x, y) in plane_nodes(if quick { 2 } else { 3 }) {
     v.push(ref_unproj(x, y));
   }
   v.extend(generic_points());
@@ -544,7 +544,7 @@ pub fn run(ctx: &Ctx, c06: bool) -> i32 {
   let quick = ctx.quick();
   let id = if c06 { "C06" } else { "C05" };
   let listed_kf1 = ctx.findings.listed(id, KF1);
-  let dmax: u8 = if quick { 3 } else { 5 };
+  let dmax: u8 = if quick { 4 } else { 6 };
   let deltas: Vec<u8> = if quick { vec![1, 2] } else { vec![1, 2, 3] };
   let cs = centres(quick);
   // force the tables
